@@ -11,14 +11,14 @@ _req = ("; client block: User-Agent, Connection, the extension field X, Keep-Ali
 _rep = ("; origin block: Server, Connection, the extension field X, Keep-Alive, TE, Trailer, Upgrade, Proxy-Connection, Proxy-Authenticate, "
         "'Transfer-Encoding: chunked', [second Connection,] Accept, X-Keep")
 def _fams(th):
-    k = "b b b b b" if th else "b b b"
+    k = "b b b b" if th else "b b b"
     x2 = "'X-e'" if th else "'Xe'"
     any_ = "Connection = %s (fully symbolic), X = %s" % (k, "'xE'" if th else "'E'")
     two = "two Connection fields 'close' and %s, X = %s" % (k, x2)
     tail = "Connection = 'close' %s, X = %s" % (k, x2)
     head = "Connection = %s 'keep-alive', X = %s" % (k, x2)
-    mid = "Connection = 'xe' %s 'x-keep' %s, X = 'xE'" % (("b b b", "b b") if th else ("b b", "b"))
-    reg = "Connection = %s (names the registered end-to-end field Accept or not), X = 'Xe'" % ("b b 'cce' b b b" if th else "b 'ccep' b b")
+    mid = "Connection = 'xe' %s 'x-keep' %s, X = 'xE'" % (("b b b", "b") if th else ("b b", "b"))
+    reg = "Connection = %s (names the registered end-to-end field Accept or not), X = 'Xe'" % ("b 'cce' b b b" if th else "b 'ccep' b b")
     name = "Connection = %s, X = %s" % ("'close,xE' b ',k' b" if th else "'close,xE' b", "n n n (not Via)" if th else "n n")
     L3 = ("listed-dropped", "unlisted-kept", "to-origin")
     return [
